@@ -570,7 +570,15 @@ public:
           O["name"] = VD->getNameAsString();
           O["file"] = X.fileOf(VD->getLocation());
           O["line"] = (int64_t)X.lineOf(VD->getLocation());
-          O["const"] = VD->getType().isConstQualified();
+          {
+            QualType ET = VD->getType();
+            while (const auto *AT = X.Ctx.getAsArrayType(ET))
+              ET = AT->getElementType();
+            O["const"] = VD->getType().isConstQualified() || ET.isConstQualified();
+          }
+          O["type"] = X.typeInfo(VD->getType());
+          if (VD->hasInit())
+            O["init"] = X.evalInit(VD->getInit());
           if (const auto *FD = dyn_cast<FunctionDecl>(VD->getDeclContext()))
             O["function"] = FD->getNameAsString();
           SL.push_back(std::move(O));
